@@ -7,6 +7,7 @@ CONSTANT ReqSets <- UTrace
 CONSTANT MaxWrites = 1000000
 CONSTANT PutSets <- UTrace
 CONSTANT ConfSets <- UTrace
+CONSTANT CoalSets <- UTrace
 CONSTANT Lims = {0}
 SPECIFICATION PSpec
 CONSTRAINT Progress
